@@ -25,10 +25,45 @@ type XCase struct {
 	Traffic   string `json:"traffic"`         // none | stuck-background-call | 8-goroutines
 	Deadline  bool   `json:"deadline"`
 	Buffer    uint   `json:"send_buffer"`
+	CtxKind   string `json:"ctx_kind,omitempty"` // "" = harness-ended context | with-cause = context.WithCancelCause / WithTimeoutCause
+}
+
+// endCtx is a context the harness can end.
+type endCtx interface {
+	context.Context
+	end(error)
+}
+
+var errShutdown = errors.New("application is shutting down")
+
+// causeCtx is a standard-library context that carries a cancellation cause different from its Err().
+type causeCtx struct {
+	context.Context
+	cancel context.CancelCauseFunc
+	stop   context.CancelFunc
+	timed  bool
+}
+
+func newCauseCtx(timed bool, d time.Duration) *causeCtx {
+	if timed {
+		ctx, stop := context.WithTimeoutCause(context.Background(), d, errShutdown)
+		return &causeCtx{Context: ctx, stop: stop, timed: true}
+	}
+	ctx, cancel := context.WithCancelCause(context.Background())
+	return &causeCtx{Context: ctx, cancel: cancel}
+}
+
+func (c *causeCtx) end(error) {
+	if c.timed {
+		<-c.Done() // the harness lets it expire
+		c.stop()
+		return
+	}
+	c.cancel(errShutdown)
 }
 
 var (
-	xBehaviours = []string{"never-answers", "holds-connection", "stalled", "refuse", "tarpit-reconnect", "slow"}
+	xBehaviours = []string{"never-answers", "holds-connection", "stalled", "refuse", "tarpit-reconnect", "slow", "streams-forever"}
 	xInstants   = []string{"before-call", "while-queued", "while-being-written", "write-blocked", "awaiting-replies"}
 	xTraffic    = []string{"none", "stuck-background-call", "8-goroutines"}
 )
@@ -37,7 +72,7 @@ var (
 func RunCtxEnd(e *Env) {
 	R := e.R
 	R.Rule = "grid (seeded sample in quick): call kind (21 methods, one-way with and without send-waiting) x behaviour of the targeted node (handler never answers / holds its connection, proxy stalled = peer not reading, connections refused, reconnect into a tarpit, slow) " +
-		"x concurrent traffic on the same node (none, a background call with context.Background() stuck on it, 8 goroutines) x instant of the context end placed with hooks (before the call, while queued at enq.registered, while being written at snd.beforeWrite, while a write is blocked by flow control, while awaiting replies) x cancel/deadline; " +
+		"(plus: server streams that never end, feeding a quorum function that costs 0.5 ms per reply) x context kind (ended by the harness; context.WithCancelCause / WithTimeoutCause carrying a cause that differs from Err) x concurrent traffic on the same node (none, a background call with context.Background() stuck on it, 8 goroutines) x instant of the context end placed with hooks (before the call, while queued at enq.registered, while being written at snd.beforeWrite, while a write is blocked by flow control, while awaiting replies) x cancel/deadline; " +
 		"oracle: hang rule (W, two goroutine dumps) from the logged instant of the context end; where the call reports an error, errors.Is(err, ctx.Err()) unless the node itself legitimately failed the call; distinct = grid point"
 	R.Assume("a node error (e.g. 'stream is down' for a refused connection) that is available when the context ends is a legitimate outcome; only errors that exist because of the context's end must match it")
 	rng := e.Rand(8)
@@ -49,7 +84,23 @@ func RunCtxEnd(e *Env) {
 		if c.Method == "Uni" || c.Method == "Uni2" || c.Method == "Multi" || c.Method == "MultiPN" {
 			c.NoWait = rng.Intn(2) == 0
 		}
+		if rng.Intn(4) == 0 {
+			c.CtxKind = "with-cause"
+		}
 		cases = append(cases, c)
+	}
+	// contexts that carry a cancellation cause, for every call class
+	for _, m := range []string{"RPC", "QC", "Async", "Corr", "CorrStream", "Uni", "Multi"} {
+		for _, dl := range []bool{false, true} {
+			cases = append(cases, XCase{Method: m, N: 2, Behaviour: "never-answers", Instant: "awaiting-replies", Traffic: "none", Deadline: dl, CtxKind: "with-cause"})
+			cases = append(cases, XCase{Method: m, N: 2, Behaviour: "never-answers", Instant: "before-call", Traffic: "none", Deadline: dl, CtxKind: "with-cause"})
+		}
+	}
+	// servers that stream replies without end, faster than the (costly) quorum function consumes them
+	for _, m := range []string{"CorrStream", "CorrStreamPN", "CorrStreamCustom", "CorrStreamCombo"} {
+		for _, dl := range []bool{false, true} {
+			cases = append(cases, XCase{Method: m, N: 3, Behaviour: "streams-forever", Instant: "awaiting-replies", Traffic: "none", Deadline: dl})
+		}
 	}
 	// the combinations the anchors name, for every call class
 	for _, m := range []string{"RPC", "QC", "Async", "Corr", "CorrStream", "Uni", "Multi"} {
@@ -136,10 +187,36 @@ func runCtxEndCase(e *Env, idx int, c XCase) (hangSig string) {
 	var ronce sync.Once
 	open := func() { ronce.Do(func() { close(release) }) }
 	defer open()
-	var entered atomic.Int64
+	var entered, streamed atomic.Int64
 	bad := 0 // index of the misbehaving node
 	cl.SetBehaviour(func(hc *h.HCall) (*puppet.Rep, error) {
 		entered.Add(1)
+		if c.Behaviour == "streams-forever" {
+			if hc.Send == nil {
+				hc.Ctx.Release()
+				select {
+				case <-release:
+				case <-hc.S.Done():
+				}
+				return hc.Rep(0), nil
+			}
+			for i := 0; ; i++ {
+				select {
+				case <-release:
+					return nil, nil
+				case <-hc.S.Done():
+					return nil, nil
+				default:
+				}
+				if hc.Send(hc.Rep(uint32(i))) != nil {
+					return nil, nil
+				}
+				streamed.Add(1)
+				if i%16 == 15 {
+					time.Sleep(200 * time.Microsecond)
+				}
+			}
+		}
 		if hc.S.Index == bad || c.Behaviour == "never-answers" || c.Behaviour == "holds-connection" {
 			switch c.Behaviour {
 			case "never-answers":
@@ -236,14 +313,32 @@ func runCtxEndCase(e *Env, idx int, c XCase) (hangSig string) {
 		time.Sleep(10 * time.Millisecond)
 	}
 	// the call under test
-	ctx := newManualCtx()
-	ctxErr := context.Canceled
+	var ctx endCtx = newManualCtx()
+	var ctxErr error = context.Canceled
 	if c.Deadline {
 		ctxErr = context.DeadlineExceeded
 	}
+	awaitDelay := time.Duration(10+idx%20) * time.Millisecond
+	if c.CtxKind == "with-cause" {
+		// (a real deadline cannot be made to pass at a hook: those instants use WithCancelCause)
+		timed := c.Deadline && (c.Instant == "before-call" || c.Instant == "write-blocked" || c.Instant == "awaiting-replies")
+		d := awaitDelay
+		if c.Instant == "before-call" {
+			d = 0
+		}
+		ctx = newCauseCtx(timed, d)
+		if !timed {
+			ctxErr = context.Canceled
+		}
+	}
 	tok := h.NewToken()
 	req := &puppet.Req{Call: tok, Seq: tok, Kind: 8, Pad: make([]byte, pad)}
-	mon := &h.CallMon{Token: tok, Orig: req, Decide: func(inv *h.Inv) (bool, int) { return false, len(inv.Keys) }} // never quorum: only the context can end it
+	mon := &h.CallMon{Token: tok, Orig: req, Decide: func(inv *h.Inv) (bool, int) {
+		if c.Behaviour == "streams-forever" {
+			time.Sleep(500 * time.Microsecond) // a quorum function with a cost: replies arrive faster than they are merged
+		}
+		return false, len(inv.Keys)
+	}} // never quorum: only the context can end it
 	cl.QS.Register(mon)
 	var hold *h.Held
 	if e.Hooks != nil {
@@ -307,14 +402,28 @@ func runCtxEndCase(e *Env, idx int, c XCase) (hangSig string) {
 			e.Hooks.Disarm(hold)
 		}
 	case "write-blocked", "awaiting-replies":
-		time.Sleep(time.Duration(10+idx%20) * time.Millisecond)
+		time.Sleep(awaitDelay)
 		ctx.end(ctxErr)
 		ended.Store(true)
 	}
+	if ctx.Err() != nil {
+		ctxErr = ctx.Err()
+	}
 	t0 := time.Now()
-	hi := h.Await(t, e.W)
+	var hi h.HangInfo
+	if strings.HasPrefix(c.Method, "Corr") {
+		hi = h.AwaitCompletion(t, e.W, "handleCorrectableCall") // (the task waits on the correctable's Done channel, in harness code)
+	} else {
+		hi = h.Await(t, e.W)
+	}
 	lat := time.Since(t0)
 	det := map[string]any{"case": c, "steering": reached, "handlers_entered": entered.Load()}
+	if c.Behaviour == "streams-forever" {
+		R.Count("replies_streamed_by_never_ending_streams", streamed.Load())
+	}
+	if c.CtxKind != "" {
+		R.Seen("ctx_kinds", fmt.Sprintf("%s(deadline=%v): Err=%v Cause=%v", c.CtxKind, c.Deadline, ctx.Err(), context.Cause(ctx)))
+	}
 	R.Eval(fmt.Sprintf("%+v", c), true)
 	R.Seen("behaviours", c.Behaviour)
 	R.Seen("instants", c.Instant)
